@@ -1,6 +1,7 @@
 package rules
 
 import (
+	"fmt"
 	"go/constant"
 	"go/token"
 	"go/types"
@@ -759,4 +760,134 @@ func storedInputs(c ssa.CallInstruction, fieldKey string) []ssa.Value {
 		}
 	}
 	return out
+}
+
+// ruleVerdictGate (C04; the full effect list is C03.VALIDATION-GUARD): the accept / reject decision IS the verdict of
+// the validation of the resulting configuration: the device is written only on the false outcome of HasErrors() called
+// on the value RootEntry.Validate returned - not on a filtered copy, a per-intent subset or a different result object.
+func ruleVerdictGate(w *core.World, r *core.Report, rule string) {
+	for _, n := range []string{"lowlevelTransactionSet", "replaceIntent"} {
+		f := w.Func("pkg/datastore", "Datastore", n)
+		if f == nil {
+			continue
+		}
+		valCalls := core.CallsTo(f, "tree.RootEntry.Validate")
+		if len(valCalls) != 1 {
+			r.Undecided(rule, core.Site(f, "validate"), w.Pos(f.Pos()), fmt.Sprintf("expected exactly one RootEntry.Validate call, found %d", len(valCalls)))
+			continue
+		}
+		for _, c := range core.CallsTo(f, kApplyIntent) {
+			ok := false
+			core.WithHost(f, func() { ok = guardedByHasErrorsOf(c, valCalls[0], false) })
+			r.Check(ok, rule, core.Site(f, "device written only when the validation found no error"), w.InstrPos(c), "the gate must test HasErrors() of the complete validation result (every owner's findings count: a value that becomes active because another intent was removed is attributed to its own owner)")
+		}
+	}
+}
+
+// ruleLeafrefPathFresh (C04, C17): leafref resolution rewrites the parsed path in place (the key predicate
+// [k=current()/../x] is replaced by the value found for THIS instance and marked as resolved). The parsed path must
+// therefore belong to one resolution only: what tree.newLrefPath returns is not kept in any struct field (a per-tree or
+// process-wide cache of parsed statements) other than the fields of the path's own elements.
+func ruleLeafrefPathFresh(w *core.World, r *core.Report, rule string) {
+	fl := w.NewFlow()
+	n := 0
+	for _, f := range w.RepoFns {
+		for _, c := range core.OwnCallsTo(f, "tree.newLrefPath") {
+			if v := c.Value(); v != nil {
+				fl.AddSource(v)
+				n++
+			}
+		}
+	}
+	if n == 0 {
+		r.Undecided(rule, "tree.newLrefPath", "", "the constructor of the parsed leafref path is not called anywhere")
+		return
+	}
+	fl.Run()
+	var bad []string
+	for k := range fl.Fields {
+		if strings.HasPrefix(k, "tree.lrefPathElem.") || strings.HasPrefix(k, "tree.lrefPathElemKeyValue.") {
+			continue
+		}
+		bad = append(bad, k)
+	}
+	// ... nor in a map that is a field / package variable, nor in a sync.Map
+	for _, f := range w.RepoFns {
+		for _, b := range f.Blocks {
+			for _, in := range b.Instrs {
+				switch x := in.(type) {
+				case *ssa.MapUpdate:
+					if !fl.Reaches(x.Value) {
+						continue
+					}
+					for _, o := range append(core.Origins(x.Map), x.Map) {
+						if fk := core.FieldOf(o); fk != "" && !strings.HasPrefix(fk, "tree.lrefPathElem") {
+							bad = append(bad, "map "+fk)
+						}
+						if u, ok := o.(*ssa.UnOp); ok {
+							if g, ok := u.X.(*ssa.Global); ok {
+								bad = append(bad, "map "+g.Name())
+							}
+						}
+					}
+				case ssa.CallInstruction:
+					if k := core.CalleeKey(x); k == "sync.Map.Store" || k == "sync.Map.LoadOrStore" || k == "sync.Map.Swap" || k == "sync.Map.CompareAndSwap" {
+						for _, a := range x.Common().Args {
+							if fl.Reaches(a) {
+								bad = append(bad, "a sync.Map ("+core.FuncKey(f)+")")
+							}
+						}
+					}
+				}
+			}
+		}
+	}
+	sort.Strings(bad)
+	r.Check(len(bad) == 0, rule, "parsed leafref path is used by one resolution only", "", "the parsed path is kept in "+strings.Join(bad, ", ")+": the key values resolved for one instance are seen by every other instance (and written concurrently by the validation goroutines)")
+}
+
+// ruleCleanupOnlyIdFailures (C06, C07): the guard's cleanup calls CleanupTransaction(id) and drops its error, and
+// CleanupTransaction decides through GetTransaction(id). Both can therefore fail only for the two reasons that mean
+// "there is nothing of yours to clean up": no open transaction, or another id. Any further refusal in them (a state
+// check written for Confirm / Cancel) leaves the transaction registered after a failed TransactionSet: every later
+// request is refused.
+func ruleCleanupOnlyIdFailures(w *core.World, r *core.Report, rule string) {
+	for _, n := range []string{"GetTransaction", "CleanupTransaction"} {
+		f := w.Func("pkg/datastore/types", "TransactionManager", n)
+		if f == nil {
+			continue
+		}
+		id := core.Param(f, "id")
+		for i, ret := range core.EffectiveReturns(f) {
+			ev := errorOperand(ret)
+			if ev == nil || core.IsNilConst(ev) {
+				continue
+			}
+			ok := false
+			for _, a := range core.GuardAtoms(ret) {
+				if x, nilOnTrue, isNil := core.NilTest(a.Cond); isNil {
+					if nilOnTrue == a.True && core.FieldOf(x) == kTMSlot {
+						ok = true // no open transaction
+					}
+					// the error of the id test itself, handed on
+					if nilOnTrue != a.True && isErrorType(x.Type()) {
+						for _, oc := range core.OriginCalls(x) {
+							if core.CalleeIs(oc, kGetTx) {
+								ok = true
+							}
+						}
+					}
+				}
+				l, rr, eqOnTrue, isEq := core.EqTest(a.Cond)
+				if isEq && eqOnTrue != a.True && id != nil {
+					for _, pair := range [][2]ssa.Value{{l, rr}, {rr, l}} {
+						if core.FieldOf(pair[0]) == "datastore/types.Transaction.transactionId" && core.HasOrigin(pair[1], id) {
+							ok = true // another id
+						}
+					}
+				}
+			}
+			r.Check(ok, rule, core.Site(f, "failing return#%d is 'no transaction' or 'other id'", i), w.InstrPos(ret), "the cleanup after a failed TransactionSet ignores this error: a refusal for any other reason leaves the transaction registered and the datastore locked for every later request")
+		}
+	}
 }
